@@ -35,13 +35,18 @@ class World:
         self.stream = None
         self.q = [1e-8] * len(IDS)
 
-    def feed(self, rng):
-        """random subset of chemicals, flows over six decades, random distribution over random phases; Stream or MultiStream"""
+    def feed(self, rng, binary=False):
+        """random subset of chemicals, flows over six decades, random distribution over random phases; Stream or MultiStream
+        (binary: exactly two volatile chemicals, the case the composition specifications x / y are defined for)"""
         n = len(IDS)
+        self.binary = binary
         k = rng.choice([1, 2, 2, 3, 3, 4, 5, n])
         chosen = rng.sample(range(n), k)
         if not any(CLS[i] == 'vol' for i in chosen) and rng.random() < 0.8:
             chosen.append(rng.choice([i for i in range(n) if CLS[i] == 'vol']))
+        if binary:
+            vol = [i for i in range(n) if CLS[i] == 'vol']
+            chosen = rng.sample(vol, 2) + [i for i in chosen if CLS[i] != 'vol' and rng.random() < 0.3]
         total = np.zeros(n)
         for i in chosen:
             total[i] = 10 ** rng.uniform(-3, 3)
@@ -114,15 +119,44 @@ class World:
         else:
             raise KeyError(op)
 
+    def nudge(self, rng):
+        """scale the flow of one chemical (preferably a trace one) in every phase; state shaping, not judged"""
+        s = self.stream
+        tot = self._table_float().sum(axis=0)
+        present = [i for i in range(len(IDS)) if tot[i] > 0]
+        if not present:
+            return
+        i = min(present, key=lambda j: tot[j]) if rng.random() < 0.7 else rng.choice(present)
+        f = rng.choice([0.5, 0.9, 0.99, 1.1, 2.])
+        if isinstance(s, tmo.MultiStream):
+            for ph in s.phases:
+                s.imol[ph, IDS[i]] = s.imol[ph, IDS[i]] * f
+        else:
+            s.imol[IDS[i]] = s.imol[IDS[i]] * f
+        tot = self._table_float().sum(axis=0)
+        self.q = [t / QUANTA if t > 0 else 1e-8 for t in tot]
+
     # ---- specification values ----------------------------------------------------------------------------
     def vle_spec(self, rng):
         """a supported pair of specifications with values inside the quantifier of C03; None if the reference flashes fail"""
         s = self.stream
         kind = rng.choice(['TP', 'TP', 'TV', 'PV', 'PH', 'PS', 'TH', 'TS', 'Tx', 'Ty', 'Px', 'Py'])
+        if getattr(self, 'binary', False) and rng.random() < 0.7:
+            kind = rng.choice(['Tx', 'Ty', 'Px', 'Py'])
         T = rng.uniform(250, 500)
         P = 10 ** rng.uniform(4, 6.7)
         V = rng.choice([0., 1., rng.random(), rng.random()])
         f = rng.random()
+        tot_ = self._table_float().sum(axis=0)
+        if rng.random() < 0.3:
+            # vapour fractions next to the ends and next to the largest / smallest reachable one (non-volatile and gas-only
+            # chemicals cannot move), enthalpies / entropies at and next to the all-liquid / all-vapour values
+            F_ = tot_.sum()
+            heavy = sum(tot_[i] for i in range(len(IDS)) if CLS[i] in ('sol', 'liq')) / F_
+            light = sum(tot_[i] for i in range(len(IDS)) if CLS[i] == 'gas') / F_
+            eps = 10 ** -rng.uniform(2, 6.5)
+            V = min(max(rng.choice([1. - eps, eps, (1. - heavy) * (1. - eps), (1. - heavy) - eps, light + eps, light * (1. + eps)]), 0.), 1.)
+            f = rng.choice([0., 1., eps, 1. - eps])
         try:
             with warnings.catch_warnings():
                 warnings.simplefilter('ignore')
@@ -147,6 +181,10 @@ class World:
                         if len(idx) != 2:
                             return None
                         z = rng.uniform(0.05, 0.95)
+                        if rng.random() < 0.4:
+                            # a specified composition next to the overall composition of the two chemicals (lever rule at its ends)
+                            z = tot[idx[0]] / (tot[idx[0]] + tot[idx[1]]) * (1. + rng.choice([1e-6, -1e-6, 3e-6, -3e-6, 1e-5, 0.]))
+                            z = min(max(z, 1e-9), 1. - 1e-9)
                         kw = {kind[0]: T if kind[0] == 'T' else P, kind[1]: '%r,%r' % (z, 1 - z)}
         except Exception:
             return None
